@@ -26,6 +26,16 @@ let bounded_count site (r : cursor) : int =
 let read_vlist site s (r : cursor) : (int * q list) list =
   let n = bounded_count site r in
   take_n n (fun () -> let a = next_int r in let v = take_n s (fun () -> fin site r) in (a, v))
+(* full entries (action, links, values) as Coq ventry records *)
+let read_vlist_full site s (r : cursor) : ventry list =
+  let n = bounded_count site r in
+  take_n n (fun () ->
+      let a = next_int r in
+      let nl = bounded_count site r in
+      let links = take_n nl (fun () -> let i = next_int r in if i < 0 || i > 1000000 then oracle_fail "finite_output" site "implausible link" else nat_of_int i) in
+      let v = take_n s (fun () -> fin site r) in
+      { vals = v; act = nat_of_int (max 0 a); obs = links })
+let strip (l : ventry list) : (int * q list) list = List.map (fun e -> (int_of_nat e.act, e.vals)) l
 let read_mat site (r : cursor) : q list list =
   let rows = bounded_count site r in let cols = bounded_count site r in
   take_n rows (fun () -> take_n cols (fun () -> fin site r))
@@ -125,6 +135,93 @@ let check_anytime c site tag (b0 : q list) grid (lb, ub, vl, ubq) =
       List.iter (fun (_, v) -> check_lb ~rel c ("anytime_lbvec_sound" ^ sfx) site (tag ^ " LB vector") b (dotq v b)) vl;
       check_ub ~rel c "anytime_ubq_sound" site (tag ^ " ubQ surface") b (lin_surface c.m ubq b)) grid
 
+(* ---- per-event certificates on the event-level hook (fixes/C03-hook-events.patch): every alpha vector
+   must pass lb_event_ok against the vectors alive when it was made, every new belief point / corner
+   write must pass ub_point_ok / ub_corner_ok against a surface of the history (lb_trace_sound /
+   ub_trace_sound then make every entry sound); prunings must only remove entries. *)
+let vec_eq a b = List.length a = List.length b && List.for_all2 q_eq a b
+let rec product (ls : int list list) (cap : int) : int list list =
+  match ls with
+  | [] -> [[]]
+  | l :: t -> let rest = product t cap in
+    let all = List.concat_map (fun x -> List.map (fun r -> x :: r) rest) l in
+    if List.length all > cap then List.filteri (fun i _ -> i < cap) all else all
+
+let replay_events cx site (b0 : q list) (r : cursor) : int =
+  let m = cx.m in
+  let nev = bounded_count site r in
+  let scale = q_add q_one (vio_qdiv (q_add (q_abs cx.rmax) (q_abs cx.rmin)) (q_sub q_one m.pm.gam)) in
+  let d = q_mul (q_of_ints 1 10000000) scale in
+  let live = ref [] and hist = ref [] and certified = ref 0 in
+  let read_state () =
+    let vl = read_vlist site cx.s r in let ubq = read_mat site r in let ubv = read_ubv site cx.s r in (vl, ubq, ubv) in
+  for ev = 1 to nev do
+    let kind = next_int r in
+    (match kind with
+     | 0 ->
+       let (vl, ubq, ubv) = read_state () in
+       live := List.map snd vl; hist := [(ubq, ubv)];
+       List.iter (fun (b, v) -> if not (le_tol ~rel:(q_of_ints 1 10000000) (lin_surface m ubq b) v) && not (vec_eq b b0 && false) then
+                     oracle_fail "ub_event_ok" site "initial belief point lies below the corner planes of the FIB table") ubv
+     | 1 ->
+       let b = take_n cx.s (fun () -> fin site r) in
+       let _lb = fin site r in let ub = fin site r in
+       let corner = next_int r = 1 in let cs = next_int r in let ua = next_int r in
+       let (vl, ubq, ubv) = read_state () in
+       if !hist = [] then failwith "event stream does not start with Init";
+       (* --- lower bound: the new alpha is the last entry *)
+       let nl = List.length vl in
+       if nl <> List.length !live + 1 then oracle_fail "lb_event_ok" site (Printf.sprintf "event %d: a backup must add exactly one vector" ev);
+       let (aa, alpha) = List.nth vl (nl - 1) in
+       if aa < 0 || aa >= cx.a then oracle_fail "lb_event_ok" site "alpha vector with an action out of range";
+       let cands = List.map (fun o ->
+           let t = tau_step m b (nat aa) (nat o) in
+           let vals = List.map (fun v -> dot v t) !live in
+           let mx = List.fold_left q_max (List.hd vals) vals in
+           let idx = List.filteri (fun _ _ -> true) (List.mapi (fun i v -> (i, v)) vals) in
+           List.filter_map (fun (i, v) -> if q_le (q_sub mx v) d then Some i else None) idx) (range 0 cx.o) in
+       let combos = product cands 256 in
+       if not (List.exists (fun links -> lb_event_ok m !live (nat aa) (List.map nat links) alpha d) combos) then
+         oracle_fail "lb_event_ok" site (Printf.sprintf "event %d: alpha [%s] (action %d, belief [%s]) exceeds the backup of the best live vectors" ev (str_qs alpha) aa (str_qs b));
+       live := List.map snd vl;
+       (* --- upper bound *)
+       let (cq, cpts) = List.hd !hist in
+       let hl = List.length !hist in
+       if corner then begin
+         if cs < 0 || cs >= cx.s || ua < 0 || ua >= cx.a then oracle_fail "ub_event_ok" site "corner write out of range";
+         let v = qget ubq (nat cs) (nat ua) in
+         if not (q_eq v ub) then oracle_fail "ub_event_ok" site "corner entry differs from the reported UB";
+         if not (List.exists (fun k -> ub_corner_ok m !hist (nat cs) (nat ua) v (nat k) d) (range 0 hl)) then
+           oracle_fail "ub_event_ok" site (Printf.sprintf "event %d: corner write ubQ(%d,%d) := %s is below the one-step look-ahead over every surface of the history" ev cs ua (string_of_q v));
+         (* all other entries unchanged *)
+         List.iteri (fun s row -> List.iteri (fun a x -> if not (s = cs && a = ua) && not (q_eq x (qget cq (nat s) (nat a))) then
+                                           oracle_fail "ub_event_ok" site "a backup changed another corner entry") row) ubq;
+         if List.length ubv <> List.length cpts then oracle_fail "ub_event_ok" site "a corner backup changed the point set"
+       end else begin
+         if List.length ubv <> List.length cpts + 1 then oracle_fail "ub_event_ok" site "a backup must add exactly one belief point";
+         let (pb, pv) = List.nth ubv (List.length ubv - 1) in
+         if not (vec_eq pb b && q_eq pv ub) then oracle_fail "ub_event_ok" site "new point differs from the reported belief / UB";
+         let ks = List.map (fun a ->
+             match List.find_opt (fun k -> q_le (ub_backup m (List.nth !hist k) b (nat a)) (q_add pv d)) (range 0 hl) with
+             | Some k -> k
+             | None -> oracle_fail "ub_event_ok" site (Printf.sprintf "event %d: point ([%s], %s) is below the one-step look-ahead of action %d over every surface of the history" ev (str_qs b) (string_of_q pv) a)) (range 0 cx.a) in
+         if not (ub_point_ok m !hist b pv (List.map nat ks) d) then oracle_fail "ub_event_ok" site "ub_point_ok rejects the certificate found"
+       end;
+       hist := (ubq, ubv) :: !hist; incr certified
+     | 2 | 3 ->
+       let (vl, ubq, ubv) = read_state () in
+       if !hist = [] then failwith "event stream does not start with Init";
+       let (cq, cpts) = List.hd !hist in
+       List.iter (fun (_, v) -> if not (List.exists (vec_eq v) !live) then oracle_fail "lb_prune_subset" site "pruning introduced a new vector") vl;
+       live := List.map snd vl;
+       List.iter2 (fun r1 r2 -> if not (vec_eq r1 r2) then oracle_fail "ub_prune_subset" site "pruning changed the corner table") ubq cq;
+       List.iter (fun (pb, pv) -> if not (List.exists (fun (b', v') -> vec_eq pb b' && q_eq pv v') cpts) then
+                     oracle_fail "ub_prune_subset" site "pruning introduced a new belief point") ubv;
+       hist := (ubq, ubv) :: !hist
+     | _ -> failwith "unknown event kind")
+  done;
+  !certified
+
 let judge _id (c : cursor) (r : cursor) : bool * string =
   let kind = next c in
   match kind with
@@ -147,8 +244,8 @@ let judge _id (c : cursor) (r : cursor) : bool * string =
     expect r "blindF"; let _ = fin sB r in let blindF = read_vlist sB cx.s r in
     let fibq = if repr = "dense" then begin expect r "fib"; let _ = fin sF r in Some (read_mat sF r) end else None in
     expect r "qmdp"; let _ = fin sQ r in let qq = read_mat sQ r in let qvl = read_vlist sQ cx.s r in
-    expect r "pbvi"; let _ = fin sP r in let np = bounded_count sP r in let pbvi = take_n np (fun () -> read_vlist sP cx.s r) in
-    expect r "perseus"; let _ = fin sE r in let ne = bounded_count sE r in let pers = take_n ne (fun () -> read_vlist sE cx.s r) in
+    expect r "pbvi"; let _ = fin sP r in let np = bounded_count sP r in let pbvi_full = take_n np (fun () -> read_vlist_full sP cx.s r) in let pbvi = List.map strip pbvi_full in
+    expect r "perseus"; let _ = fin sE r in let ne = bounded_count sE r in let pers_full = take_n ne (fun () -> read_vlist_full sE cx.s r) in let pers = List.map strip pers_full in
     (* ---- O *)
     if List.length blindT <> cx.a || List.length blindF <> cx.a then oracle_fail "blind_shape" sB "one vector per action expected";
     List.iter (fun b ->
@@ -159,6 +256,15 @@ let judge _id (c : cursor) (r : cursor) : bool * string =
         List.iteri (fun k vl -> check_le_ev cx "pbvi_sound" sP (Printf.sprintf "PBVI horizon-%d surface" k) k b (best_of vl b)) pbvi;
         List.iteri (fun k vl -> List.iter (fun (_, v) -> check_lb cx "perseus_sound" sE (Printf.sprintf "PERSEUS horizon-%d vector" k) b (dotq v b)) vl) pers
       ) grid;
+    (* proof-carrying lower bounds: every PBVI / PERSEUS entry is the plan of its links over the previous list
+       (C02.Spec.check_vf); pbvi_sound / perseus_sound then apply to the implementation's own lists *)
+    let ptol = q_of_ints 1 100000000 in   (* R/|O| shares are not dyadic for |O| = 3 *)
+    (match pbvi_full with
+     | v0 :: rest_ -> if not (check_vf ptol m v0 rest_) then oracle_fail "pbvi_entries_are_plans" sP "an entry is not the plan of its links (or a link is out of range)"
+     | [] -> oracle_fail "pbvi_shape" sP "empty value function");
+    (match pers_full with
+     | v0 :: rest_ -> if not (check_vf ptol m v0 rest_) then oracle_fail "perseus_entries_are_plans" sE "an entry is not the plan of its links (or a link is out of range)"
+     | [] -> oracle_fail "perseus_shape" sE "empty value function");
     (* QMDP's VList is the list of columns of its Q-function *)
     List.iteri (fun a (_, v) -> if not (List.for_all2 q_eq v (qcol qq (nat a))) then oracle_fail "qmdp_vlist" sQ "VList entry is not the Q-function column") qvl;
     (* ---- C *)
@@ -264,7 +370,8 @@ let judge _id (c : cursor) (r : cursor) : bool * string =
         (* belief points of the upper bound: each (b_i, v_i) claims V*(b_i) <= v_i *)
         List.iteri (fun i (bi, vi) -> if i < 6 then check_ub ~rel:(q_of_ints 1 100000) cx "anytime_ubv_sound" site (Printf.sprintf "snapshot %d ubV point" k) bi vi) ubv
       done;
-      (List.length vl >= 1, kind ^ (if ns > 0 then "-hook" else ""))
+      let ncert = if (not (at_end r)) && peek r = "events" then (expect r "events"; replay_events cx site b0 r) else 0 in
+      (List.length vl >= 1, kind ^ (if ncert > 0 then "-events" else if ns > 0 then "-hook" else ""))
     end
   | "cleanup" ->
     let _tol = next c in let s = next_int c in let a = next_int c in
